@@ -484,18 +484,15 @@ Section Body.
     - rewrite strip_vstate. exact H.
   Qed.
 
-  Variable ts_of : Z -> Z.
-  Hypothesis Hts : forall j, in_range t0 j -> znth (tr_ts t0) j = Some (ts_of j).
-  Hypothesis Hinj : forall j j', in_range t0 j -> in_range t0 j' -> ts_of j = ts_of j' -> j = j'.
   Variable value_at : Z -> val.
   (** the body can be evaluated at every index of the trace as loaded (without the virtual signals) *)
   Hypothesis Hval : forall j, in_range t0 j ->
     exists vals s', eval_args (eval lf f) body (strip (vst j [])) = Ok vals s' /\ last_opt vals = Some (value_at j).
 
-  Theorem reads_of_a_read_only_body js c : Forall (in_range t0) js -> sound t0 ts_of value_at c ->
-    exists c2, reads (eval lf f) tid name st0 t0 body js c (map value_at js) c2 /\ sound t0 ts_of value_at c2.
+  Theorem reads_of_a_read_only_body js c : Forall (in_range t0) js -> sound t0 value_at c ->
+    exists c2, reads (eval lf f) tid name st0 t0 body js c (map value_at js) c2 /\ sound t0 value_at c2.
   Proof.
-    apply (reads_in_any_order (eval lf f) tid name st0 t0 body Htid ts_of Hts Hinj value_at).
+    apply (reads_in_any_order (eval lf f) tid name st0 t0 body Htid value_at).
     intros j c0 Hj. destruct (Hval j Hj) as (vals & s' & He & Hl). exists vals. split; [|exact Hl].
     apply (body_ignores_cache j c0 vals s' He).
   Qed.
@@ -508,11 +505,8 @@ Example demo_any_order : forall js, Forall (in_range sig_trace) js ->
   exists c2, reads (eval 50 50) "t" "v" sig_state sig_trace v_body js [] (map v_value js) c2.
 Proof.
   intros js Hjs.
-  destruct (reads_of_a_read_only_body 50 50 "t" "v" sig_state sig_trace v_body eq_refl eq_refl eq_refl demo_clean v_ts) with
+  destruct (reads_of_a_read_only_body 50 50 "t" "v" sig_state sig_trace v_body eq_refl eq_refl eq_refl demo_clean) with
     (value_at := v_value) (js := js) (c := @nil (Z * val)) as (c2 & H & _).
-  - intros j Hj. unfold in_range in Hj. cbn [tr_max sig_trace] in Hj.
-    assert (E : j = 0 \/ j = 1 \/ j = 2 \/ j = 3 \/ j = 4) by lia. destruct E as [->|[->|[->|[->| ->]]]]; reflexivity.
-  - intros j j' _ _ H. unfold v_ts in H. lia.
   - intros j Hj. unfold in_range in Hj. cbn [tr_max sig_trace] in Hj.
     assert (E : j = 0 \/ j = 1 \/ j = 2 \/ j = 3 \/ j = 4) by lia.
     destruct E as [->|[->|[->|[->| ->]]]]; eexists _, _; (split; [vm_compute; reflexivity|reflexivity]).
@@ -530,11 +524,8 @@ Example rise_any_order : forall js, Forall (in_range sig_trace) js ->
   exists c2, reads (eval 50 50) "t" "r" sig_state sig_trace rise_body js [] (map rise_value js) c2.
 Proof.
   intros js Hjs.
-  destruct (reads_of_a_read_only_body 50 50 "t" "r" sig_state sig_trace rise_body eq_refl eq_refl eq_refl rise_clean v_ts) with
+  destruct (reads_of_a_read_only_body 50 50 "t" "r" sig_state sig_trace rise_body eq_refl eq_refl eq_refl rise_clean) with
     (value_at := rise_value) (js := js) (c := @nil (Z * val)) as (c2 & H & _).
-  - intros j Hj. unfold in_range in Hj. cbn [tr_max sig_trace] in Hj.
-    assert (E : j = 0 \/ j = 1 \/ j = 2 \/ j = 3 \/ j = 4) by lia. destruct E as [->|[->|[->|[->| ->]]]]; reflexivity.
-  - intros j j' _ _ H. unfold v_ts in H. lia.
   - intros j Hj. unfold in_range in Hj. cbn [tr_max sig_trace] in Hj.
     assert (E : j = 0 \/ j = 1 \/ j = 2 \/ j = 3 \/ j = 4) by lia.
     destruct E as [->|[->|[->|[->| ->]]]]; eexists _, _; (split; [vm_compute; reflexivity|reflexivity]).
